@@ -340,6 +340,17 @@ Section Contract.
         exists cs'. split; [exact X|]. destruct r; auto; split; auto; lia.
   Qed.
 
+  Lemma base_good0 : forall f (s : st) r s' n,
+    base_poll_next tp f s = (r, s') ->
+    exists new, ext s s' new /\
+      good new (fun cs => Iok cs /\ streak cs <= n) (fun cs => Iok cs /\ streak cs <= n).
+  Proof.
+    intros f s r s' n H. destruct (base_ext _ _ _ _ H) as (new & E & F). exists new. split; [exact E|].
+    intros cs ((A1 & A2) & A3).
+    destruct (cc_nexts new F cs) as (cs' & B & B1 & B2 & B3 & B4 & B5 & B6).
+    exists cs'. split; [exact B|]. unfold Iok. repeat split; try congruence; lia.
+  Qed.
+
   Lemma pump_read_good : forall c f (s : st) r s',
     pump_read tp c f s = (r, s') ->
     exists new, ext s s' new /\
@@ -350,11 +361,112 @@ Section Contract.
   Proof.
     intros c f s r s' H; unfold pump_read in H. destruct (cfg_limit c) as [l|].
     - exact (maxreq_good _ _ _ _ _ H).
-    - destruct (maxreq_good (S f) (S (length (s_inflight s))) s r s') as (n & E & G).
-      + cbn [maxreq_poll_next].
-        replace (S (length (s_inflight s)) <=? length (s_inflight s)) with false
-          by (symmetry; apply Nat.leb_gt; lia).
-        (* base_poll_next with one more unit of fuel: same spec, so re-derive directly *)
-        fail.
-  Abort.
+    - destruct (base_good0 _ _ _ _ 0 H) as (n & E & G). exists n. split; [exact E|].
+      eapply good_weaken; [exact G| |].
+      + cbn. intros cs (A & B). split; [exact A|lia].
+      + cbn. intros cs (A & B). destruct r; auto; split; auto; lia.
+  Qed.
+
+  (* impl Stream for Requests: poll_next *)
+  Lemma requests_good : forall c f (s : st) r s',
+    requests_poll_next tp c f s = (r, s') ->
+    exists new, ext s s' new /\
+      good new (fun cs => Iok cs /\ streak cs = 0)
+               (fun cs => match r with
+                          | PErr _ | PFuel => True
+                          | PPending => Iok cs /\ (dirty cs = false \/ last_flush_pending cs = true)
+                          | _ => Iok cs end).
+  Proof.
+    induction f as [|f IH]; intros s r s' H; cbn [requests_poll_next] in H.
+    { injection H as <- <-. exists []. split; [apply ext_refl|]. apply good_nil; auto. }
+    destruct (pump_read tp c (S f) s) as [rd s1] eqn:ER.
+    destruct (pump_read_good _ _ _ _ _ ER) as (n1 & E1 & G1).
+    destruct rd as [q| |a| |];
+      try (injection H as <- <-; exists n1; split; [exact E1|]; eapply good_weaken; [exact G1|auto|cbn; auto]).
+    all: match type of H with context [pump_write tp ?b ?sx] =>
+           destruct (pump_write tp b sx) as [wr s2] eqn:EW;
+           destruct (pump_write_good _ _ _ _ EW) as (n2 & E2 & G2) end.
+    all: assert (E02 : ext s s2 (n1 ++ n2)) by (eapply ext_trans; eauto).
+    all: assert (G12 : good (n1 ++ n2) (fun cs => Iok cs /\ streak cs = 0)
+                       (fun cs => match wr with
+                          | PReady _ => Iok cs /\ streak cs = 0
+                          | PPending => Iok cs /\ (dirty cs = false \/ last_flush_pending cs = true)
+                          | PEnd => Iok cs /\ dirty cs = false
+                          | _ => True end))
+           by (eapply good_seq; [exact G1|]; eapply good_weaken; [exact G2|cbn; tauto|auto]).
+    all: destruct wr as [u| |a| |].
+    all: try (injection H as <- <-; exists (n1 ++ n2); (split; [first [exact E02|unfold ext in *; sproj; exact E02]|]);
+              eapply good_weaken; [exact G12|auto|cbn; tauto]).
+    all: destruct (IH _ _ _ H) as (n3 & E3 & G3); exists ((n1 ++ n2) ++ n3);
+         (split; [eapply ext_trans; eauto|]); eapply good_seq; [exact G12|exact G3].
+  Qed.
+
+  (* one poll, as the contract monitor sees it *)
+  Lemma poll_requests_contract : forall c (s : st) s' l cs,
+    s_dropped s = false ->
+    poll_requests tp tfuel c s = (s', l) -> Iok cs ->
+    exists log r, l = [OCalls log; r]
+      /\ match r with
+         | OStreamErr _ | OFuel =>
+           fst (c_poll fs cs (log, false)) = true
+         | OPending =>
+           fst (c_poll fs cs (log, true)) = true /\ Iok (snd (c_poll fs cs (log, true)))
+         | OYield _ _ _ _ _ | OStreamEnd =>
+           fst (c_poll fs cs (log, false)) = true /\ Iok (snd (c_poll fs cs (log, false)))
+         | _ => False
+         end.
+  Proof.
+    intros c s s' l cs Hd H HI; unfold poll_requests in H. rewrite Hd in H.
+    destruct (requests_poll_next tp c (poll_fuel tfuel s) (set_log s [])) as [r s1] eqn:ER.
+    destruct (requests_good _ _ _ _ _ ER) as (new & E & G).
+    assert (Hlog : rev (s_log s1) = new).
+    { unfold ext in E. sproj. rewrite E, app_nil_r, rev_involutive. reflexivity. }
+    set (cs0 := {| licensed := licensed cs; closed := closed cs; failed := failed cs;
+                   rfailed := rfailed cs; dirty := dirty cs; last_flush_pending := false;
+                   streak := 0 |}).
+    assert (H0 : Iok cs0 /\ streak cs0 = 0) by (destruct HI; subst cs0; unfold Iok; cbn; auto).
+    destruct (G cs0 H0) as (cs1 & X & Y).
+    assert (Hp : forall b, c_poll fs cs (new, b) =
+                 (true && (negb b || negb (dirty cs1) || last_flush_pending cs1 || failed cs1 || rfailed cs1), cs1)).
+    { intros b. unfold c_poll. cbn [fst snd]. fold cs0. rewrite X. reflexivity. }
+    destruct r as [q| |a| |]; injection H as <- <-; rewrite Hlog; do 2 eexists; (split; [reflexivity|]);
+      rewrite ?Hp; cbn [fst snd negb orb andb]; auto.
+    destruct Y as (Y1 & [Y2|Y2]); rewrite Y2; cbn; auto. destruct (dirty cs1); cbn; auto.
+  Qed.
+
+  Lemma run_contract : forall c ops (s : st) cs,
+    Iok cs ->
+    @c_polls response cmsg fs cs (polls_of ops (fst (run_from tp ctl tfuel c s ops))) = true.
+  Proof.
+    induction ops as [|o ops IH]; intros s cs HI; [reflexivity|].
+    cbn [run_from]. destruct (step tp ctl tfuel c s o) as [s1 l] eqn:ES.
+    destruct (run_from tp ctl tfuel c s1 ops) as [ls s2] eqn:ERun.
+    assert (IH' := IH s1). rewrite ERun in IH'. cbn [fst] in *.
+    unfold step in ES.
+    destruct o as [|x|k hs|k|k| |dt]; try (cbn [polls_of]; apply IH'; exact HI).
+    destruct (poll_requests tp tfuel c s) as [sx lx] eqn:EP. injection ES as <- <-.
+    destruct (s_dropped s) eqn:ED.
+    - unfold poll_requests in EP. rewrite ED in EP. injection EP as <- <-.
+      unfold gauges. rewrite ED. cbn [app polls_of]. apply IH'; exact HI.
+    - destruct (poll_requests_contract _ _ _ _ cs ED EP HI) as (log & r & -> & Hr).
+      cbn [app polls_of].
+      destruct r; try contradiction.
+      + destruct Hr as (A & B). cbn [c_polls]. destruct (c_poll fs cs (log, false)) as [ok cs1].
+        cbn [fst snd] in *. subst ok. cbn. apply IH'; exact B.
+      + destruct Hr as (A & B). cbn [c_polls]. destruct (c_poll fs cs (log, true)) as [ok cs1].
+        cbn [fst snd] in *. subst ok. cbn. apply IH'; exact B.
+      + destruct Hr as (A & B). cbn [c_polls]. destruct (c_poll fs cs (log, false)) as [ok cs1].
+        cbn [fst snd] in *. subst ok. cbn. apply IH'; exact B.
+      + cbn [c_polls]. destruct (c_poll fs cs (log, false)) as [ok cs1]. cbn [fst] in Hr. subst ok.
+        reflexivity.
+      + cbn [c_polls]. destruct (c_poll fs cs (log, false)) as [ok cs1]. cbn [fst] in Hr. subst ok.
+        reflexivity.
+  Qed.
+
+  (* C14, server half, clauses (a) (b) (c) and the per-poll bound of (d): for every transport *)
+  Theorem server_contract_ok : forall c t0 ops,
+    contract_ok fs (polls_of ops (fst (run tp ctl tfuel c t0 ops))) = true.
+  Proof.
+    intros. unfold contract_ok, run. apply run_contract. unfold Iok, cst0; cbn; auto.
+  Qed.
 End Contract.
